@@ -12,7 +12,7 @@ KNOWN_TEXT = {
 }
 
 
-def run_ring_property(pid, props_file, gen, rule, extra_trusted=(), assumptions=(), validate=True):
+def run_ring_property(pid, props_file, gen, rule, extra_trusted=(), assumptions=(), validate=True, extra_phase=None):
     run = Run(pid)
     run.do_proof(props_file)
     binary = ring_binary(run)
@@ -53,18 +53,20 @@ def run_ring_property(pid, props_file, gen, rule, extra_trusted=(), assumptions=
             n_validated += 1
             if r is not True and val_fail is None:
                 val_fail = (tr, r)
+    extra_dist = extra_phase(run) if extra_phase else None
     if val_fail is not None and not run.violations:
         tr, why = val_fail
         run.violation({"kind": "correspondence-broken (the extracted Coq model of the ring-buffer threads does not accept the logged trace; the property monitors held on every explored schedule)",
                        "correspondence": "ring_validate_entry vs harness/ring trace", "why": why, "config": tr.cfg.to_json(), "schedule": tr.schedule},
                       name=f"corr-{run.tier}.json", no_input=True)
     proof_failure_violation(run, bool(run.violations))
-    run.cov["distinct_nontrivial"] = len(nontrivial)
+    run.cov["distinct_nontrivial"] += len(nontrivial)
     run.cov["traces_validated_against_impl"] = n_validated
     run.cov["rule"] = rule
     dist["monitor_findings"] = {f"{k[0]}|{k[1]}": v for k, v in counts.items()}
     dist["outcomes"] = dict(collections.Counter(t.outcome for t in traces))
     dist["steps_total"] = sum(t.steps for t in traces); dist["events_total"] = sum(len(t.events) for t in traces)
+    if extra_dist: dist.update(extra_dist)
     run.cov["distribution"] = dist
     t0 = traces[0]
     run.cov["samples"] = [{"config": t0.cfg.to_json(), "schedule_prefix": t0.schedule[:60], "first_events": [e.brief() for e in t0.events[:25]]}]
